@@ -47,6 +47,93 @@ def load():
     return _cache["rec"]
 
 
+def run_adjoint_helpers(rep, tier):
+    """E3 for the SECOND-ORDER rules of dot / tensordot: the adjoint helpers dot_adjoint_0/1 and tensordot_adjoint_0/1 are primitives of their own; their
+    reverse rules (used when a gradient is differentiated again) must return arrays shaped like the helper's differentiated argument - for all sizes."""
+    rv, rj, anp, dropped = load()
+    cases = [c for c in _struct_cases(tier) if c[1] in ("dot", "tensordot")]
+    rep.bound(f"E3 adjoint helpers: {len(cases)} dot / tensordot call forms x 2 helpers x 2 differentiated arguments; all dimension sizes symbolic")
+    npaths = 0
+    for label, name, spec, kwargs, argnums in cases:
+        for side in (0, 1):
+            hname = f"{name}_adjoint_{side}"
+            if hname not in rv.helpers:
+                rep.uncover(f"E3 adjoint helpers: {hname} is not a primitive of numpy_vjps any more")
+                continue
+            for a in (0, 1):
+                case = f"{hname}[{label}]|arg{a}|vjp"
+
+                def harness(L, name=name, spec=spec, kwargs=kwargs, side=side, a=a, hname=hname):
+                    _state["oblig"] = []
+                    A_, B_ = _sym_args(L, spec, {})
+                    ans = getattr(anp, name)(A_, B_, **kwargs)
+                    G = sx.SArr(sx.shape_of(ans), sx.kind_of(ans))
+                    other = B_ if side == 0 else A_
+                    if name == "dot":
+                        hargs = (other, G, anp.metadata(A_), anp.metadata(B_))
+                    else:
+                        hargs = (other, G, kwargs.get("axes", 2), len(sx.shape_of(A_)), len(sx.shape_of(B_)))
+                    adj = rv.helpers[hname](*hargs)
+                    _state["oblig"] = []
+                    mk = rv.vjps.get((hname, a))
+                    if mk is None:
+                        return None
+                    res = mk(adj, *hargs)(sx.SArr(sx.shape_of(adj), sx.kind_of(adj)))
+                    tgt = hargs[a]
+                    if not isinstance(res, sx.SArr):
+                        return None
+                    return (sx.shape_of(res), sx.kind_of(res)), list(_state["oblig"]), (sx.shape_of(tgt), sx.kind_of(tgt))
+                try:
+                    results, _ = cx.explore(harness)
+                except (shadow.NotModelled, CheckerError) as e:
+                    rep.uncover(f"E3: {case}: {e}"[:160])
+                    continue
+                for r in results:
+                    if r.exc is None and r.value is None:
+                        continue
+                    npaths += 1
+                    if r.exc is None:
+                        res, obl, want = r.value
+                        r.value = (res, obl)
+                    else:
+                        res, want = None, (None, None)
+                        if isinstance(r.exc, (shadow.NotModelled, NotImplementedError)):
+                            rep.uncover(f"E3: {case}: {type(r.exc).__name__}: {str(r.exc)[:60]}")
+                            continue
+                    _check_leaf(rep, tier, f"vjp:{hname}:{case}", r, res, want[0], want[1], case,
+                                dict(module="contracts.rules_shape", family="adjoint", label=label, helper=hname, argnum=a, mode="vjp"))
+    rep.extra["e3_adjoint_paths"] = npaths
+
+
+def _native_adjoint(spec):
+    """second-order replay: the gradient of <vjp of dot/tensordot applied to a fixed cotangent> with respect to the other operand / the cotangent"""
+    import numpy as onp
+
+    import autograd.numpy as anp
+    from autograd.core import make_vjp
+    case = next((c for c in _struct_cases("thorough") if c[0] == spec["label"]), None)
+    if case is None:
+        return True, "case removed", ""
+    label, name, aspec, kwargs, argnums = case
+    A_, B_ = _native_args(aspec, spec.get("sizes", {}))
+    side = int(spec["helper"][-1])
+    f = lambda a_, b_: getattr(anp, name)(a_, b_, **kwargs)
+    G = onp.ones(onp.shape(f(A_, B_)))
+    try:
+        if spec["argnum"] == 0:      # differentiate (other operand) -> vjp_side(G)
+            other = B_ if side == 0 else A_
+            inner = (lambda o: make_vjp(lambda z: f(z, o), A_)[0](G)) if side == 0 else (lambda o: make_vjp(lambda z: f(o, z), B_)[0](G))
+            tgt = other
+        else:                        # differentiate cotangent -> vjp_side(cotangent)
+            inner = (lambda g_: make_vjp(lambda z: f(z, B_), A_)[0](g_)) if side == 0 else (lambda g_: make_vjp(lambda z: f(A_, z), B_)[0](g_))
+            tgt = G
+        vjp, val = make_vjp(inner, tgt)
+        r = onp.asarray(vjp(onp.ones(onp.shape(val))))
+        return r.shape == onp.shape(tgt), f"second-order gradient shape {r.shape} for a differentiated value of shape {onp.shape(tgt)}", "the value's shape"
+    except Exception as e:
+        return True, f"raises {type(e).__name__}: {str(e)[:80]} (allowed)", "-"
+
+
 LINALG_NAMES = ("inv", "det", "slogdet", "cholesky", "pinv", "solve", "eigh", "norm", "svd", "eig", "eigvals", "eigvalsh", "matrix_rank", "lstsq", "qr", "matrix_power", "multi_dot", "tensorsolve", "tensorinv", "cond")
 
 
@@ -463,6 +550,11 @@ def _struct_cases(tier):
     for sc, sx_, sy in ((("a", "b"), ("a", "b"), ("a", "b")), (("a", "b"), ("b",), ("a", 1)), (("b",), (), ("b",)), (("a", "b"), (), ()), (("b",), ("a", "b"), ("b",))):
         C.append((f"where{sc}{sx_}{sy}", "where", [("A", sc, "bool"), A(*sx_), A(*sy)], {}, (1, 2)))
     C.append(("clip", "clip", [A("a", "b"), ("lit", 0.5), ("lit", 2.0)], {}, (0,)))
+    for shp in (("a", "b"), ("c", "a", "b"), ("a", "a")):
+        for kw in ({"axis1": -1, "axis2": -2}, {"axis1": -2, "axis2": -1}, {}, {"offset": 1, "axis1": -1, "axis2": -2}, {"axis1": 0, "axis2": -1}):
+            C.append((f"diagonal{shp}{kw}", "diagonal", [A(*shp)], kw, (0,)))
+    for shp in (("a",), ("c", "a")):
+        C.append((f"make_diagonal{shp}", "make_diagonal", [A(*shp)], {"axis1": -1, "axis2": -2}, (0,)))
     for src, dst in (((1, "b"), ("a", "b")), (("a", 1), ("a", "b")), ((1, 1), ("a", "b")),
                      # dimensions PREPENDED by the broadcast (the rule may refuse them; if it answers, the cotangent has x's shape)
                      (("a", 1), ("c", "a", "b")), ((1, "b"), ("c", "a", "b")), (("b",), ("a", "b")), (("a", 1, "b"), ("c", "a", "d", "b"))):
@@ -708,6 +800,8 @@ def replay(spec):
         return _native_struct(spec)
     if spec.get("family") == "linalg":
         return _native_linalg(spec)
+    if spec.get("family") == "adjoint":
+        return _native_adjoint(spec)
     sizes = spec.get("sizes", {})
 
     def arr(tag, rank, kind):
